@@ -134,6 +134,8 @@ pub trait JsonParser {
                    None => false }) }),
             !is_io(r) && pvs(old(self).rv().pending) ==> r is Ok && r->Ok_0 is Some,
             !is_io(r) && ws_run(old(self).rv().pending) == old(self).rv().pending.len() ==> r is Ok && r->Ok_0 is None,
+            // the fatal IoError is reported ONLY when a read failed (unit LEX: lex_post)
+            is_io(r) ==> has_fault(old(self).rv().pending),
             // the parser is deterministic: value / end / error and what is left pending are a FUNCTION of the pending bytes
             // (assumed; used only by the `parse` function below, whose result must be a function of its argument)
             njv_abs(r) == njv_fn(old(self).rv().pending).0 && final(self).rv().pending == njv_fn(old(self).rv().pending).1;
@@ -329,6 +331,18 @@ impl Get for Impl {
             r is Some ==> (match arg(self.0@, value, 0) { Some(JsonValue::String(s)) => (match pv(text_pending(s@)) {
                 Some((v, n)) => r == Some(v) && ws_run(from(text_pending(s@), n)) == from(text_pending(s@), n).len(),
                 None => false }), _ => false }), // @obl LOOP.parse.value : C04 C02
+            // ... and a text that holds one value in an accepted spelling followed by nothing but white space is never refused
+            // (a string has no failing reads, so the parser cannot answer with an I/O error)
+            (match arg(self.0@, value, 0) { Some(JsonValue::String(s)) => (pvs(text_pending(s@)) && (match pv(text_pending(s@)) {
+                Some((v, n)) => ws_run(from(text_pending(s@), n)) == from(text_pending(s@), n).len(), None => false })), _ => false }) ==> r is Some, // @obl LOOP.parse.accepts : C04 C02
+//@@ after "let mut reader = from_string(&str);"
+                        proof {
+                            reveal(has_fault);
+                            let p = text_pending(str@);
+                            assert(reader.pending() =~= p);
+                            assert(no_fault(p));
+                            lemma_pv(p);
+                        }
 //@@ endfn
 }
 }
